@@ -12,6 +12,18 @@
 //! one JSON case per line on stdin, one JSON answer per line on stdout), because non-termination and
 //! allocation failure cannot be caught in-thread.  The parent supervises with a deadline.
 //!
+//! Two builds of the worker are used.  The harness profile has debug assertions and overflow checks
+//! on ("checked build"); several dashu preconditions are guarded by nothing else (`ln` of a negative
+//! number trips a `debug_assert!`, exponent arithmetic merely overflows), so what an ordinary release
+//! build does would stay invisible.  `c16` therefore builds itself a second time with both switched
+//! off (cargo profile overrides through the environment, target dir `<target>-plain`) and runs in
+//! that "plain build" every case whose table entry is not "must return", every case that panicked in
+//! the checked build and a fixed quarter (by case digest) of the rest.
+//!
+//! Development aid: `C16_SURVEY=1` lists every violating (entry, expectation) once instead of
+//! stopping at the first violation (exit status meaningless).  Entries named `selftest: ...` are never
+//! generated; they validate the supervision (hang, abort, allocation failure) through `--replay`.
+//!
 //! Hang rule (the only place where wall-clock enters a verdict): small input (<= 8 words,
 //! precision <= 100, |exponent| <= 1000, strings <= 200 bytes, size-driving counts <= 4096), no
 //! answer within 10 s while the worker consumed >= 50 % CPU, and again no answer within 30 s in a
@@ -720,6 +732,7 @@ fn build_catalogue() -> Vec<Op> {
     float_b2_repr(&mut v);
     ratio_ops(&mut v);
     base_ops(&mut v);
+    num_order_ops(&mut v);
     //CATALOGUE-CALLS
     // entries on Repr<B> do not depend on the rounding mode: keep the first of each
     let mut seen = std::collections::HashSet::new();
@@ -749,8 +762,8 @@ fn selftest(v: &mut Vec<Op>) {
         x
     }, |_d| ret());
     entry!(v, "selftest", "selftest", 0, "selftest: allocate 64 GiB", U0, |_c| {
-        let b: Vec<u8> = vec![1u8; 64usize << 30];
-        b.len()
+        let b: Vec<u8> = std::hint::black_box(vec![1u8; std::hint::black_box(64usize << 30)]);
+        b.iter().map(|x| *x as usize).sum::<usize>()
     }, |_d| ret());
     entry!(v, "selftest", "selftest", 0, "selftest: abort", U0, |_c| {
         std::process::abort();
@@ -2145,6 +2158,55 @@ fn base_ops(v: &mut Vec<Op>) {
     entry!(v, "base", S, 0, "ParseError / ConversionError Display", U0.n(NK::Sel), |c| { use dashu_base::{ConversionError, ParseError}; let e = [ParseError::NoDigits, ParseError::InvalidDigit, ParseError::UnsupportedRadix, ParseError::InconsistentRadix][(c.n % 4) as usize]; (format!("{e}"), format!("{}", ConversionError::OutOfBounds), format!("{:?}", ConversionError::LossOfPrecision)) }, |_d| ret());
 }
 
+// ------------------------------------------------------------------------------------------------
+// num-order impls (default feature of the three numeric crates): comparison / hashing across types.
+// NaN operands give `None` from num_partial_cmp; nothing here is documented to panic.
+// ------------------------------------------------------------------------------------------------
+
+fn num_order_ops(v: &mut Vec<Op>) {
+    use num_order::{NumHash, NumOrd};
+    fn nh<T: NumHash>(x: &T) -> u64 {
+        use std::hash::Hasher;
+        let mut h = std::collections::hash_map::DefaultHasher::new();
+        x.num_hash(&mut h);
+        h.finish()
+    }
+    const I: &str = "int: num-order (NumOrd / NumHash)";
+    entry!(v, "int", I, 0, "UBig NumOrd UBig/IBig", UI, |c| (c.ua().num_partial_cmp(&c.ub()), c.ua().num_partial_cmp(&c.ib()), c.ib().num_partial_cmp(&c.ua())), |_d| ret());
+    entry!(v, "int", I, 0, "IBig NumOrd IBig + num_eq/num_lt", II, |c| (c.ia().num_partial_cmp(&c.ib()), c.ia().num_eq(&c.ib()), c.ia().num_lt(&c.ib())), |_d| ret());
+    entry!(v, "int", I, 0, "UBig NumOrd u8/i64/u128 (both directions)", U0.a(1).k(), |c| (c.ua().num_partial_cmp(&(c.k128() as u8)), (c.k128() as i64).num_partial_cmp(&c.ua()), c.ua().num_partial_cmp(&(c.k128() as u128))), |_d| ret());
+    entry!(v, "int", I, 0, "IBig NumOrd i8/u64/i128 (both directions)", U0.a(2).k(), |c| (c.ia().num_partial_cmp(&(c.k128() as i8)), (c.k128() as u64).num_partial_cmp(&c.ia()), c.ia().num_partial_cmp(&c.k128())), |_d| ret());
+    entry!(v, "int", I, 0, "UBig NumOrd f32 (both directions)", U0.a(1).n(NK::F32), |c| { let f = f32::from_bits(c.n as u32); (c.ua().num_partial_cmp(&f), f.num_partial_cmp(&c.ua())) }, |_d| ret());
+    entry!(v, "int", I, 0, "UBig NumOrd f64 (both directions)", U0.a(1).n(NK::F64), |c| { let f = f64::from_bits(c.n); (c.ua().num_partial_cmp(&f), f.num_partial_cmp(&c.ua())) }, |_d| ret());
+    entry!(v, "int", I, 0, "IBig NumOrd f32 (both directions)", U0.a(2).n(NK::F32), |c| { let f = f32::from_bits(c.n as u32); (c.ia().num_partial_cmp(&f), f.num_partial_cmp(&c.ia())) }, |_d| ret());
+    entry!(v, "int", I, 0, "IBig NumOrd f64 (both directions)", U0.a(2).n(NK::F64), |c| { let f = f64::from_bits(c.n); (c.ia().num_partial_cmp(&f), f.num_partial_cmp(&c.ia())) }, |_d| ret());
+    entry!(v, "int", I, 0, "UBig/IBig NumHash", U0.a(2), |c| (nh(&c.ua()), nh(&c.ia())), |_d| ret());
+    const F: &str = "float: num-order (NumOrd / NumHash)";
+    let xe = |d: &Case, b: u64| -> Exp { let x = fv(&d.x, b); Pre::new().unspec(x.extreme(), L_EXT).unspec(x.far(), L_FAR).heavy(x.far()).done() };
+    let _ = xe;
+    fn pre_no(d: &Case, b: u64, two: bool) -> Exp {
+        let x = fv(&d.x, b);
+        let y = fv(&d.y, b);
+        let bad = x.extreme() || (two && y.extreme());
+        let far = x.far() || (two && y.far());
+        Pre::new().unspec(bad, L_EXT).unspec(far, L_FAR).heavy(far).done()
+    }
+    entry!(v, "float", F, 2, "FBig<Zero,2> NumOrd FBig<HalfAway,10>", FXY, |c| (c.fx::<mode::Zero, 2>().num_partial_cmp(&c.fy::<mode::HalfAway, 10>()), c.fy::<mode::HalfAway, 10>().num_partial_cmp(&c.fx::<mode::Zero, 2>())), |d| pre_no(d, 2, true));
+    entry!(v, "float", F, 10, "Repr<10> NumOrd Repr<2>", FXY, |c| c.rx::<10>().num_partial_cmp(&c.ry::<2>()), |d| pre_no(d, 10, true));
+    entry!(v, "float", F, 10, "FBig<HalfAway,10> NumOrd UBig/IBig (both directions)", U0.x().a(2), |c| { let x = c.fx::<mode::HalfAway, 10>(); (x.num_partial_cmp(&c.ua()), x.num_partial_cmp(&c.ia()), c.ia().num_partial_cmp(&x)) }, |d| pre_no(d, 10, false));
+    entry!(v, "float", F, 2, "FBig<Zero,2> NumOrd u8/i64/u128 (both directions)", U0.x().k(), |c| { let x = c.fx::<mode::Zero, 2>(); (x.num_partial_cmp(&(c.k128() as u8)), (c.k128() as i64).num_partial_cmp(&x), x.num_partial_cmp(&(c.k128() as u128))) }, |d| pre_no(d, 2, false));
+    entry!(v, "float", F, 2, "FBig<Zero,2> NumOrd f32/f64 (both directions)", U0.x().n(NK::F64), |c| { let x = c.fx::<mode::Zero, 2>(); let (f, g) = (f32::from_bits(c.n as u32), f64::from_bits(c.n)); (x.num_partial_cmp(&f), g.num_partial_cmp(&x), x.num_partial_cmp(&g)) }, |d| pre_no(d, 2, false));
+    entry!(v, "float", F, 10, "FBig<HalfAway,10> NumOrd f32/f64 (both directions)", U0.x().n(NK::F64), |c| { let x = c.fx::<mode::HalfAway, 10>(); let (f, g) = (f32::from_bits(c.n as u32), f64::from_bits(c.n)); (x.num_partial_cmp(&f), g.num_partial_cmp(&x), x.num_partial_cmp(&g)) }, |d| pre_no(d, 10, false));
+    entry!(v, "float", F, 2, "FBig<Zero,2> NumHash", FX, |c| nh(&c.fx::<mode::Zero, 2>()), |d| pre_no(d, 2, false));
+    entry!(v, "float", F, 10, "FBig<HalfAway,10> NumHash", FX, |c| nh(&c.fx::<mode::HalfAway, 10>()), |d| pre_no(d, 10, false));
+    const Q: &str = "ratio: num-order (NumOrd / NumHash)";
+    entry!(v, "ratio", Q, 0, "RBig NumOrd Relaxed/UBig/IBig", Q2, |c| (c.q1().num_partial_cmp(&c.l2()), c.q1().num_partial_cmp(&c.uc()), c.ic().num_partial_cmp(&c.q1())), |_d| ret());
+    entry!(v, "ratio", Q, 0, "Relaxed NumOrd i64/u128", Q1.k(), |c| (c.l1().num_partial_cmp(&(c.k128() as i64)), (c.k128() as u128).num_partial_cmp(&c.l1())), |_d| ret());
+    entry!(v, "ratio", Q, 0, "RBig NumOrd f32/f64 (both directions)", Q1.n(NK::F64), |c| { let (f, g) = (f32::from_bits(c.n as u32), f64::from_bits(c.n)); (c.q1().num_partial_cmp(&f), g.num_partial_cmp(&c.q1()), c.l1().num_partial_cmp(&g)) }, |_d| ret());
+    entry!(v, "ratio", Q, 10, "RBig NumOrd FBig<HalfAway,10> (both directions)", Q1.x(), |c| { let x = c.fx::<mode::HalfAway, 10>(); (c.q1().num_partial_cmp(&x), x.num_partial_cmp(&c.l1())) }, |d| pre_no(d, 10, false));
+    entry!(v, "ratio", Q, 0, "RBig/Relaxed NumHash", Q1, |c| (nh(&c.q1()), nh(&c.l1())), |_d| ret());
+}
+
 static CAT: OnceLock<Vec<Op>> = OnceLock::new();
 static INDEX: OnceLock<HashMap<String, usize>> = OnceLock::new();
 
@@ -3142,7 +3204,7 @@ fn main() {
     }
     let mut ck = Check::new(
         "C16",
-        "catalogue of public operations (macro tables over dashu-base/-int/-float/-ratio: every operator in its ownership / assign / primitive-operand forms, inherent methods, trait methods, Context methods, conversions, formatting, parsing) × edge values of each argument domain (0, ±1, 2^64-1, 2^64, 2^128, a 40-word value, ±infinity, precision 0 and 1, exponents ±1000 / ±2^40 / near isize limits, shift counts to 2^20, powers to 2^22 bits, root orders 0..usize::MAX, radix 0,1,2,36,37,u32::MAX, chunk_bits 0, empty / sign-only / non-ASCII / 10^4-byte strings); every call runs in a supervised worker process (4 GiB address space, 10 s + 30 s deadline); oracle = precondition table computed from the inputs (rustdoc '# Panics' + error.rs helpers): violated => must panic with the documented message, otherwise must return, 'unspecified' where the documentation is silent; parsers on arbitrary strings must return Ok/Err. Non-trivial: the table says 'must panic' or an edge value is involved; distinct by case digest.",
+        "catalogue of public operations (macro tables over dashu-base/-int/-float/-ratio: every operator in its ownership / assign / primitive-operand forms, inherent methods, trait methods, Context methods, conversions, formatting, parsing) × edge values of each argument domain (0, ±1, 2^64-1, 2^64, 2^128, a 40-word value, ±infinity, precision 0 and 1, exponents ±1000 / ±2^40 / near isize limits, shift counts to 2^20, powers to 2^22 bits, root orders 0..usize::MAX, radix 0,1,2,36,37,u32::MAX, chunk_bits 0, empty / sign-only / non-ASCII / 10^4-byte strings); every call runs in a supervised worker process (4 GiB address space, 10 s + 30 s deadline) built with debug assertions + overflow checks, and — for every 'must panic' / 'unspecified' case, every case that panicked there and a quarter of the rest — again in a worker built without them; oracle = precondition table computed from the inputs (rustdoc '# Panics' + error.rs helpers): violated => must panic with the documented message, otherwise must return, 'unspecified' where the documentation is silent; parsers on arbitrary strings must return Ok/Err. Non-trivial: the table says 'must panic' or an edge value is involved; distinct by case digest.",
     );
     let _ = index();
     let _ = plain_exe();
